@@ -932,6 +932,10 @@ pub fn sc_boot_runtime(idx: u64, seed: u64, _t: bool) -> RunOut {
 // ------------------------------------------------------- systematic (index-decoded) scenarios
 
 fn run_custom(idx: u64, seed: u64, scenario: &str, opts: &CfgOpts, drive: impl FnOnce(&mut Driver)) -> RunOut {
+    run_custom_mode(idx, seed, scenario, opts, "plain", drive)
+}
+
+fn run_custom_mode(idx: u64, seed: u64, scenario: &str, opts: &CfgOpts, mode: &str, drive: impl FnOnce(&mut Driver)) -> RunOut {
     let mut rng = gen_rng(seed);
     let cfg = gen_cfg(&mut rng, idx, scenario, opts);
     let mut w = World::new(cfg.clone());
@@ -940,7 +944,7 @@ fn run_custom(idx: u64, seed: u64, scenario: &str, opts: &CfgOpts, drive: impl F
         drive(&mut d);
         d.ops
     };
-    finish_run(idx, seed, cfg, ops, w, "plain")
+    finish_run(idx, seed, cfg, ops, w, mode)
 }
 
 /// C05: every delivery sequence of length 4 over {m0, m1, m2, garbage, set_receiving_nonce(1)}
@@ -976,6 +980,331 @@ pub fn sc_sched_enum(idx: u64, seed: u64, _t: bool) -> RunOut {
             d.step(op);
         }
         d.epilogue(0);
+    })
+}
+
+/// C09 / C15 / C05 at the counter boundary: both counters of one direction are placed at 2^64-3,
+/// then every sequence of depth 4 over {write, deliver, synchronised rekey, manual rekey of both
+/// sides, receiver resync back to 2^64-3, receiver jump to 2^64-1} is played (6^4 sequences x
+/// 3 ciphers x 2 backends x {stateful, stateless receiver} = 15552 runs = the complete space),
+/// followed by the fault-free epilogue (resynchronisation + fresh traffic).
+pub fn sc_nonce_enum(idx: u64, seed: u64, _t: bool) -> RunOut {
+    let space = 1296 * 12;
+    let i = idx % space;
+    let cipher = ["ChaChaPoly", "AESGCM", "XChaChaPoly"][(i % 3) as usize];
+    let backend = [Backend::Default, Backend::RingFirst][((i / 3) % 2) as usize];
+    let stateless_rcv = (i / 6) % 2 == 1;
+    let mut code = i / 12;
+    let opts = CfgOpts { force_name: Some(format!("Noise_NN_25519_{cipher}_SHA256")), force_backend: Some(backend), record: true, ..CfgOpts::default() };
+    run_custom(idx, seed, "nonce-enum", &opts, |d| {
+        let honest = Profile::default();
+        if !d.handshake(0, &honest) {
+            return;
+        }
+        d.step(Op::Convert { node: 0, stateless: false });
+        d.step(Op::Convert { node: 1, stateless: stateless_rcv });
+        let start = u64::MAX - 2;
+        d.step(Op::SetSendNonce { node: 0, v: start });
+        d.step(Op::SetRecvNonce { node: 1, v: start });
+        for k in 0..4u32 {
+            let sym = code % 6;
+            code /= 6;
+            match sym {
+                0 => d.step(Op::Write { node: 0, plen: 9 + k, pseed: 50 + k, buf: Buf::Ample, nonce: NonceSel::Auto }),
+                1 => d.step(Op::Read { node: 1, src: Src::Pick { k: 0, consume: true }, mutation: Mutation::None, out: Buf::Ample, nonce: NonceSel::Auto }),
+                2 => {
+                    d.step(Op::Rekey { node: 0, which: RekeyKind::Outgoing });
+                    d.step(Op::Rekey { node: 1, which: RekeyKind::Incoming });
+                },
+                3 => {
+                    d.step(Op::Rekey { node: 0, which: RekeyKind::ManualI(k as u8) });
+                    d.step(Op::Rekey { node: 1, which: RekeyKind::ManualI(k as u8) });
+                },
+                4 => d.step(Op::SetRecvNonce { node: 1, v: start }),
+                _ => d.step(Op::SetRecvNonce { node: 1, v: u64::MAX }),
+            }
+        }
+        d.step(Op::Query { node: 0 });
+        d.step(Op::Query { node: 1 });
+        d.epilogue(0);
+    })
+}
+
+/// psk variants exercised by the fail/retry grid (the cacophony set plus a few multi-psk ones)
+const PSK_VARIANTS: [(&str, &str); 26] = [
+    ("N", "psk0"), ("K", "psk0"), ("X", "psk1"), ("NN", "psk0"), ("NN", "psk2"), ("NK", "psk0"), ("NK", "psk2"),
+    ("NX", "psk2"), ("XN", "psk3"), ("XK", "psk3"), ("XX", "psk3"), ("KN", "psk0"), ("KN", "psk2"), ("KK", "psk0"),
+    ("KK", "psk2"), ("KX", "psk2"), ("IN", "psk1"), ("IN", "psk2"), ("IK", "psk1"), ("IK", "psk2"), ("IX", "psk2"),
+    ("XX", "psk2"), ("XX", "psk0+psk1+psk2+psk3"), ("X1X1", "psk4"), ("XN", "psk2+psk1"), ("X1K", "psk2"),
+];
+
+/// C07 / C06: the one-failure grid. For every pattern (38 base + 26 psk variants) x DH x message
+/// index x failure cause (15: output buffer cut at 0 / before each of the first four field ends /
+/// one byte short, oversize payload retried with another payload, a bit flip in each of the first
+/// four fields of the incoming message, payload buffer one byte short, message one byte short,
+/// out-of-turn calls on both sides) the failing call is made once, then the step is repeated with
+/// valid arguments and the session runs to completion plus four transport messages. Recording
+/// cipher on, streaming RNG. 64 x 2 x 4 x 15 = 7680 runs = the complete grid.
+pub fn sc_fail_retry_enum(idx: u64, seed: u64, _t: bool) -> RunOut {
+    let space = 64 * 2 * 4 * 15;
+    let i = idx % space;
+    let v = (i % 64) as usize;
+    let (base, mods) = if v < 38 { (crate::refnoise::pattern_names()[v], "") } else { PSK_VARIANTS[v - 38] };
+    let dh = ["25519", "P256"][((i / 64) % 2) as usize];
+    let target = ((i / 128) % 4) as usize;
+    let cause = (i / 512) % 15;
+    let (cipher, hash) = [("ChaChaPoly", "SHA256"), ("AESGCM", "SHA512"), ("XChaChaPoly", "BLAKE2s"), ("AESGCM", "BLAKE2b")][((idx / space + i) % 4) as usize];
+    let opts = CfgOpts { force_name: Some(format!("Noise_{base}{mods}_{dh}_{cipher}_{hash}")), record: true, ..CfgOpts::default() };
+    run_custom(idx, seed, "fail-retry-enum", &opts, |d| {
+        let nmsg = d.w.nodes[0].shadow.as_ref().map_or(0, |s| s.proto.n_messages());
+        if nmsg == 0 {
+            return;
+        }
+        let target = target % nmsg;
+        for m in 0..nmsg {
+            let (wr, rd) = if m % 2 == 0 { (0u8, 1u8) } else { (1, 0) };
+            let plen = 5 + 3 * m as u32;
+            if m == target {
+                match cause {
+                    0 => d.step(Op::Write { node: wr, plen, pseed: 60, buf: Buf::Abs(0), nonce: NonceSel::Auto }),
+                    1..=4 => d.step(Op::Write { node: wr, plen, pseed: 60, buf: Buf::AtField { field: cause as u8 - 1, delta: if cause % 2 == 0 { -1 } else { 1 } }, nonce: NonceSel::Auto }),
+                    5 => d.step(Op::Write { node: wr, plen, pseed: 60, buf: Buf::Delta(-1), nonce: NonceSel::Auto }),
+                    6 => {
+                        let max = d.w.nodes[wr as usize].shadow.as_ref().map_or(0, |s| 65_535 - s.overhead());
+                        d.step(Op::Write { node: wr, plen: max as u32 + 1, pseed: 61, buf: Buf::Abs(70_000), nonce: NonceSel::Auto });
+                    },
+                    13 => {
+                        d.step(Op::Write { node: rd, plen: 4, pseed: 62, buf: Buf::Ample, nonce: NonceSel::Auto });
+                        d.step(Op::Read { node: wr, src: Src::Garbage { len: 80, seed: 3 }, mutation: Mutation::None, out: Buf::Ample, nonce: NonceSel::Auto });
+                    },
+                    _ => {},
+                }
+            }
+            d.step(Op::Write { node: wr, plen, pseed: 60, buf: Buf::Ample, nonce: NonceSel::Auto });
+            if m == target {
+                match cause {
+                    7..=10 => d.step(Op::Read { node: rd, src: Src::Pick { k: 0, consume: false }, mutation: Mutation::Flip { field: cause as u8 - 7, pos: if cause % 2 == 0 { 0 } else { u32::MAX }, bit: 3 }, out: Buf::Ample, nonce: NonceSel::Auto }),
+                    11 => d.step(Op::Read { node: rd, src: Src::Pick { k: 0, consume: false }, mutation: Mutation::None, out: Buf::Delta(-1), nonce: NonceSel::Auto }),
+                    12 => d.step(Op::Read { node: rd, src: Src::Pick { k: 0, consume: false }, mutation: Mutation::TruncLast { n: 1 }, out: Buf::Ample, nonce: NonceSel::Auto }),
+                    14 => d.step(Op::Read { node: rd, src: Src::Pick { k: 0, consume: false }, mutation: Mutation::Flip { field: 200, pos: u32::MAX, bit: 0 }, out: Buf::Exact, nonce: NonceSel::Auto }),
+                    _ => {},
+                }
+            }
+            d.step(Op::Read { node: rd, src: Src::Pick { k: 0, consume: false }, mutation: Mutation::None, out: Buf::Ample, nonce: NonceSel::Auto });
+            d.step(Op::Query { node: rd });
+        }
+        d.step(Op::Convert { node: 0, stateless: i % 2 == 0 });
+        d.step(Op::Convert { node: 1, stateless: i % 3 == 0 });
+        let oneway = nmsg == 1;
+        for k in 0..4u8 {
+            let (snd, rcv) = if oneway || k % 2 == 0 { (0u8, 1u8) } else { (1, 0) };
+            d.step(Op::Write { node: snd, plen: 11 + k as u32, pseed: 70 + k as u32, buf: Buf::Ample, nonce: NonceSel::Auto });
+            d.step(Op::Read { node: rcv, src: Src::Next, mutation: Mutation::None, out: Buf::Ample, nonce: NonceSel::Auto });
+        }
+    })
+}
+
+/// C19: the leak grid. cipher (3) x backend (2) x read path (handshake payload, stateful, stateless)
+/// x alteration (tag bit, first body byte, last body byte, cut one byte, one appended byte) x payload
+/// buffer (exact, +1, +15, +16 = message size, ample) x payload length (16, 48, 129, 1024, 16384,
+/// 40000) = 2700 runs = the complete grid; each altered copy is presented, then the genuine message.
+pub fn sc_leak_enum(idx: u64, seed: u64, _t: bool) -> RunOut {
+    let space = 3 * 2 * 3 * 5 * 5 * 6;
+    let i = idx % space;
+    let cipher = ["ChaChaPoly", "AESGCM", "XChaChaPoly"][(i % 3) as usize];
+    let backend = [Backend::Default, Backend::RingFirst][((i / 3) % 2) as usize];
+    let path = (i / 6) % 3;
+    let alt = (i / 18) % 5;
+    let out = [Buf::Exact, Buf::Delta(1), Buf::Delta(15), Buf::Delta(16), Buf::Ample][((i / 90) % 5) as usize];
+    let plen = [16u32, 48, 129, 1024, 16_384, 40_000][((i / 450) % 6) as usize];
+    let hash = ["SHA256", "BLAKE2b"][((i / 7) % 2) as usize];
+    let opts = CfgOpts { force_name: Some(format!("Noise_XX_25519_{cipher}_{hash}")), force_backend: Some(backend), ..CfgOpts::default() };
+    // payload field index: in XX message 2 the fields are e, s, s-tag, payload, payload-tag; in
+    // transport messages payload, tag
+    let mutation = |payload_field: u8| match alt {
+        0 => Mutation::Flip { field: payload_field + 1, pos: 5, bit: 2 },
+        1 => Mutation::Flip { field: payload_field, pos: 0, bit: 0 },
+        2 => Mutation::Flip { field: payload_field, pos: u32::MAX, bit: 7 },
+        3 => Mutation::TruncLast { n: 1 },
+        _ => Mutation::Extend { by: 1, fill: 0x5A },
+    };
+    run_custom(idx, seed, "leak-enum", &opts, |d| {
+        // message 1
+        d.step(Op::Write { node: 0, plen: 3, pseed: 80, buf: Buf::Ample, nonce: NonceSel::Auto });
+        d.step(Op::Read { node: 1, src: Src::Next, mutation: Mutation::None, out: Buf::Ample, nonce: NonceSel::Auto });
+        // message 2 carries an encrypted static key and an encrypted payload
+        let p2 = if path == 0 { plen } else { 7 };
+        d.step(Op::Write { node: 1, plen: p2, pseed: 81, buf: Buf::Ample, nonce: NonceSel::Auto });
+        if path == 0 {
+            d.step(Op::Read { node: 0, src: Src::Pick { k: 0, consume: false }, mutation: mutation(3), out, nonce: NonceSel::Auto });
+        }
+        d.step(Op::Read { node: 0, src: Src::Next, mutation: Mutation::None, out: Buf::Ample, nonce: NonceSel::Auto });
+        d.step(Op::Write { node: 0, plen: 5, pseed: 82, buf: Buf::Ample, nonce: NonceSel::Auto });
+        d.step(Op::Read { node: 1, src: Src::Next, mutation: Mutation::None, out: Buf::Ample, nonce: NonceSel::Auto });
+        if path == 0 {
+            return;
+        }
+        d.step(Op::Convert { node: 0, stateless: false });
+        d.step(Op::Convert { node: 1, stateless: path == 2 });
+        d.step(Op::Write { node: 0, plen, pseed: 83, buf: Buf::Ample, nonce: NonceSel::Auto });
+        d.step(Op::Read { node: 1, src: Src::Pick { k: 0, consume: false }, mutation: mutation(0), out, nonce: NonceSel::Auto });
+        d.step(Op::Read { node: 1, src: Src::Next, mutation: Mutation::None, out, nonce: NonceSel::Auto });
+    })
+}
+
+fn rekey_enum_drive(d: &mut Driver, mut code: u64, stateless_rcv: bool) {
+    let honest = Profile::default();
+    if !d.handshake(0, &honest) {
+        return;
+    }
+    d.step(Op::Convert { node: 0, stateless: false });
+    d.step(Op::Convert { node: 1, stateless: stateless_rcv });
+    for k in 0..4u32 {
+        let sym = code % 6;
+        code /= 6;
+        match sym {
+            0 => d.step(Op::Write { node: 0, plen: 9 + k, pseed: 90 + k, buf: Buf::Ample, nonce: NonceSel::Auto }),
+            1 => d.step(Op::Read { node: 1, src: Src::Pick { k: 0, consume: true }, mutation: Mutation::None, out: Buf::Ample, nonce: NonceSel::Auto }),
+            2 => d.step(Op::Rekey { node: 0, which: RekeyKind::Outgoing }),
+            3 => d.step(Op::Rekey { node: 1, which: RekeyKind::Incoming }),
+            4 => d.step(Op::Rekey { node: 0, which: RekeyKind::ManualI(2) }),
+            _ => d.step(Op::Rekey { node: 1, which: RekeyKind::ManualI(2) }),
+        }
+    }
+    // whatever the sequence did, traffic continues: the model decides what must be accepted
+    for k in 0..2u32 {
+        d.step(Op::Write { node: 0, plen: 20 + k, pseed: 95 + k, buf: Buf::Ample, nonce: NonceSel::Auto });
+    }
+    for _ in 0..6 {
+        if d.w.inbox[1].is_empty() {
+            break;
+        }
+        d.step(Op::Read { node: 1, src: Src::Next, mutation: Mutation::None, out: Buf::Ample, nonce: NonceSel::Auto });
+    }
+    // the opposite direction must be unaffected
+    if !stateless_rcv {
+        d.step(Op::Write { node: 1, plen: 8, pseed: 99, buf: Buf::Ample, nonce: NonceSel::Auto });
+        d.step(Op::Read { node: 0, src: Src::Next, mutation: Mutation::None, out: Buf::Ample, nonce: NonceSel::Auto });
+    }
+}
+
+/// C15: every sequence of depth 4 over {write, deliver, sender rekeys outgoing, receiver rekeys
+/// incoming, sender installs manual key, receiver installs the same manual key}, then further
+/// traffic; 6^4 x 3 ciphers x 2 backends x {stateful, stateless receiver} = 15552 runs.
+pub fn sc_rekey_enum(idx: u64, seed: u64, _t: bool) -> RunOut {
+    let i = idx % 15_552;
+    let cipher = ["ChaChaPoly", "AESGCM", "XChaChaPoly"][(i % 3) as usize];
+    let backend = [Backend::Default, Backend::RingFirst][((i / 3) % 2) as usize];
+    let stateless_rcv = (i / 6) % 2 == 1;
+    let opts = CfgOpts { force_name: Some(format!("Noise_NN_25519_{cipher}_SHA512")), force_backend: Some(backend), ..CfgOpts::default() };
+    run_custom(idx, seed, "rekey-enum", &opts, |d| rekey_enum_drive(d, i / 12, stateless_rcv))
+}
+
+/// C20: the same rekey sequences in twin universes (5 backend assignments per run).
+pub fn sc_rekey_enum_twin(idx: u64, seed: u64, _t: bool) -> RunOut {
+    let i = idx % 5_184;
+    let cipher = ["ChaChaPoly", "AESGCM"][(i % 2) as usize];
+    let stateless_rcv = (i / 2) % 2 == 1;
+    let opts = CfgOpts { force_name: Some(format!("Noise_NN_25519_{cipher}_SHA256")), rng_mode: RngMode::PerCall, ..CfgOpts::default() };
+    run_custom_mode(idx, seed, "rekey-enum-twin", &opts, "twin", |d| rekey_enum_drive(d, i / 4, stateless_rcv))
+}
+
+/// C10 / C14: the boundary sweep. For every pattern (38 + 26 psk variants) x DH x message index:
+/// the message is first written into output buffers of every length {boundary-2 .. boundary+2}
+/// around each field boundary of the model's field map (and 0, 1), then delivered cut at every
+/// such length and into payload buffers around the payload length, then delivered genuinely;
+/// afterwards the same sweep around the 16-byte tag in both transport modes. 512 runs, about 60
+/// faulted calls each = the complete set of boundary windows.
+pub fn sc_boundary_sweep(idx: u64, seed: u64, _t: bool) -> RunOut {
+    let space = 64 * 2 * 4;
+    let i = idx % space;
+    let v = (i % 64) as usize;
+    let (base, mods) = if v < 38 { (crate::refnoise::pattern_names()[v], "") } else { PSK_VARIANTS[v - 38] };
+    let dh = ["25519", "P256"][((i / 64) % 2) as usize];
+    let target = ((i / 128) % 4) as usize;
+    let (cipher, hash) = [("ChaChaPoly", "SHA256"), ("AESGCM", "BLAKE2b"), ("XChaChaPoly", "SHA512")][((idx / space + i) % 3) as usize];
+    let opts = CfgOpts { force_name: Some(format!("Noise_{base}{mods}_{dh}_{cipher}_{hash}")), ..CfgOpts::default() };
+    run_custom(idx, seed, "boundary-sweep", &opts, |d| {
+        let nmsg = d.w.nodes[0].shadow.as_ref().map_or(0, |s| s.proto.n_messages());
+        if nmsg == 0 {
+            return;
+        }
+        let target = target % nmsg;
+        let plen = 21u32;
+        for m in 0..nmsg {
+            let (wr, rd) = if m % 2 == 0 { (0u8, 1u8) } else { (1, 0) };
+            if m == target {
+                let nfields = d.w.nodes[wr as usize].shadow.as_ref().map_or(0, |s| s.field_map(plen as usize).len()) as u8;
+                d.step(Op::Write { node: wr, plen, pseed: 40, buf: Buf::Abs(0), nonce: NonceSel::Auto });
+                d.step(Op::Write { node: wr, plen, pseed: 40, buf: Buf::Abs(1), nonce: NonceSel::Auto });
+                'outer: for f in 0..nfields {
+                    for delta in -2i8..=2 {
+                        d.step(Op::Write { node: wr, plen, pseed: 40, buf: Buf::AtField { field: f, delta }, nonce: NonceSel::Auto });
+                        if !d.w.inbox[rd as usize].is_empty() {
+                            break 'outer;
+                        }
+                    }
+                }
+                for delta in [-2i32, -1, 1, 15] {
+                    if !d.w.inbox[rd as usize].is_empty() {
+                        break;
+                    }
+                    d.step(Op::Write { node: wr, plen, pseed: 40, buf: Buf::Delta(delta), nonce: NonceSel::Auto });
+                }
+            }
+            if d.w.inbox[rd as usize].is_empty() {
+                d.step(Op::Write { node: wr, plen, pseed: 40, buf: Buf::Ample, nonce: NonceSel::Auto });
+            }
+            if m == target {
+                let nfields = d.w.history.last().map_or(0, |h| h.fields.len()) as u8;
+                for f in 0..nfields {
+                    for delta in -2i8..=2 {
+                        d.step(Op::Read { node: rd, src: Src::Pick { k: 0, consume: false }, mutation: Mutation::TruncField { field: f, delta }, out: Buf::Ample, nonce: NonceSel::Auto });
+                        if d.w.inbox[rd as usize].is_empty() {
+                            break;
+                        }
+                    }
+                }
+                for n in [1u8, 2, 15, 16, 17] {
+                    if d.w.inbox[rd as usize].is_empty() {
+                        break;
+                    }
+                    d.step(Op::Read { node: rd, src: Src::Pick { k: 0, consume: false }, mutation: Mutation::TruncLast { n }, out: Buf::Ample, nonce: NonceSel::Auto });
+                }
+                for out in [Buf::Abs(0), Buf::Delta(-2), Buf::Delta(-1)] {
+                    if d.w.inbox[rd as usize].is_empty() {
+                        break;
+                    }
+                    d.step(Op::Read { node: rd, src: Src::Pick { k: 0, consume: false }, mutation: Mutation::None, out, nonce: NonceSel::Auto });
+                }
+            }
+            if !d.w.inbox[rd as usize].is_empty() {
+                d.step(Op::Read { node: rd, src: Src::Pick { k: 0, consume: false }, mutation: Mutation::None, out: Buf::Exact, nonce: NonceSel::Auto });
+            }
+        }
+        d.step(Op::Convert { node: 0, stateless: i % 2 == 0 });
+        d.step(Op::Convert { node: 1, stateless: i % 4 < 2 });
+        for blen in [0u32, 1, 15, 16, 17, 35, 36, 37, 38] {
+            d.step(Op::Write { node: 0, plen, pseed: 41, buf: Buf::Abs(blen), nonce: NonceSel::Auto });
+            if !d.w.inbox[1].is_empty() {
+                break;
+            }
+        }
+        if d.w.inbox[1].is_empty() {
+            d.step(Op::Write { node: 0, plen, pseed: 41, buf: Buf::Ample, nonce: NonceSel::Auto });
+        }
+        for n in [1u8, 2, 15, 16, 17, 20, 21, 22, 36, 37] {
+            if d.w.inbox[1].is_empty() {
+                break;
+            }
+            d.step(Op::Read { node: 1, src: Src::Pick { k: 0, consume: false }, mutation: Mutation::TruncLast { n }, out: Buf::Ample, nonce: NonceSel::Auto });
+        }
+        for out in [Buf::Abs(0), Buf::Delta(-2), Buf::Delta(-1), Buf::Exact] {
+            if d.w.inbox[1].is_empty() {
+                break;
+            }
+            d.step(Op::Read { node: 1, src: Src::Pick { k: 0, consume: false }, mutation: Mutation::None, out, nonce: NonceSel::Auto });
+        }
     })
 }
 
@@ -1116,19 +1445,19 @@ pub fn check_table() -> Vec<Check> {
         Check { id: "C02", level: "exploration", rule: RULE, enumerations: vec![], scens: vec![scen!("honest", sc_honest, 24_000, 600_000, 0x201), scen!("interop", sc_interop, 8_000, 200_000, 0x202), scen!("fail-retry", sc_fail_retry_ledger, 6_000, 100_000, 0x203), scen!("framing-boundary", sc_framing_boundary, 3_040, 10_640, 0x204)] },
         Check { id: "C03", level: "exploration", rule: RULE, enumerations: vec![], scens: vec![scen!("tamper-hs", sc_tamper_hs, 30_000, 800_000, 0x301), scen!("chaos", sc_chaos, 4_000, 100_000, 0x302)] },
         Check { id: "C04", level: "exploration", rule: RULE, enumerations: vec![], scens: vec![scen!("transport-auth", sc_transport_auth, 20_000, 500_000, 0x401), scen!("stateless", sc_stateless, 6_000, 100_000, 0x402), scen!("framing-boundary", sc_framing_boundary, 3_040, 10_640, 0x403)] },
-        Check { id: "C05", level: "exploration", rule: RULE, enumerations: vec![], scens: vec![scen!("transport-sched", sc_transport_sched, 24_000, 600_000, 0x501), scen!("nonce", sc_nonce, 4_000, 100_000, 0x502), scen!("sched-enum", sc_sched_enum, 7_500, 7_500, 0x503)] },
-        Check { id: "C06", level: "exploration", rule: RULE, enumerations: vec!["real-rng"], scens: vec![scen!("fail-retry-ledger", sc_fail_retry_ledger, 24_000, 600_000, 0x601), scen!("chaos", sc_chaos, 6_000, 100_000, 0x602), scen!("nonce", sc_nonce, 6_000, 100_000, 0x603)] },
-        Check { id: "C07", level: "exploration", rule: RULE, enumerations: vec![], scens: vec![scen!("fail-retry-control", sc_fail_retry_control, 20_000, 500_000, 0x701), scen!("transport-sched", sc_transport_sched, 4_000, 100_000, 0x702)] },
+        Check { id: "C05", level: "exploration", rule: RULE, enumerations: vec![], scens: vec![scen!("transport-sched", sc_transport_sched, 24_000, 600_000, 0x501), scen!("nonce", sc_nonce, 4_000, 100_000, 0x502), scen!("sched-enum", sc_sched_enum, 7_500, 7_500, 0x503), scen!("nonce-enum", sc_nonce_enum, 5_184, 15_552, 0x504)] },
+        Check { id: "C06", level: "exploration", rule: RULE, enumerations: vec!["real-rng"], scens: vec![scen!("fail-retry-ledger", sc_fail_retry_ledger, 24_000, 600_000, 0x601), scen!("chaos", sc_chaos, 6_000, 100_000, 0x602), scen!("nonce", sc_nonce, 6_000, 100_000, 0x603), scen!("fail-retry-enum", sc_fail_retry_enum, 7_680, 30_720, 0x604)] },
+        Check { id: "C07", level: "exploration", rule: RULE, enumerations: vec![], scens: vec![scen!("fail-retry-control", sc_fail_retry_control, 20_000, 500_000, 0x701), scen!("transport-sched", sc_transport_sched, 4_000, 100_000, 0x702), scen!("fail-retry-enum", sc_fail_retry_enum, 7_680, 30_720, 0x703)] },
         Check { id: "C08", level: "exploration", rule: RULE, enumerations: vec![], scens: vec![scen!("mismatch", sc_mismatch, 24_000, 600_000, 0x801), scen!("mismatch-cross", sc_mismatch_cross, 8_000, 200_000, 0x802)] },
-        Check { id: "C09", level: "exploration", rule: RULE, enumerations: vec![], scens: vec![scen!("nonce", sc_nonce, 24_000, 600_000, 0x901), scen!("stateless", sc_stateless, 4_000, 100_000, 0x902)] },
-        Check { id: "C10", level: "exploration", rule: RULE, enumerations: vec!["names"], scens: vec![scen!("chaos", sc_chaos, 16_000, 500_000, 0xA01), scen!("chaos-keys", sc_chaos_keys, 8_000, 200_000, 0xA02), scen!("framing", sc_framing, 6_000, 100_000, 0xA03), scen!("statemachine", sc_statemachine, 4_000, 100_000, 0xA04)] },
+        Check { id: "C09", level: "exploration", rule: RULE, enumerations: vec![], scens: vec![scen!("nonce", sc_nonce, 24_000, 600_000, 0x901), scen!("stateless", sc_stateless, 4_000, 100_000, 0x902), scen!("nonce-enum", sc_nonce_enum, 15_552, 15_552, 0x903)] },
+        Check { id: "C10", level: "exploration", rule: RULE, enumerations: vec!["names"], scens: vec![scen!("chaos", sc_chaos, 16_000, 500_000, 0xA01), scen!("chaos-keys", sc_chaos_keys, 8_000, 200_000, 0xA02), scen!("framing", sc_framing, 6_000, 100_000, 0xA03), scen!("statemachine", sc_statemachine, 4_000, 100_000, 0xA04), scen!("boundary-sweep", sc_boundary_sweep, 1_536, 6_144, 0xA05)] },
         Check { id: "C11", level: "exploration", rule: RULE, enumerations: vec![], scens: vec![scen!("statemachine", sc_statemachine, 30_000, 800_000, 0xB01), scen!("call-enum", sc_call_enum, 7_776, 279_936, 0xB02)] },
         Check { id: "C12", level: "fault_enumeration", rule: "boot half: every (pattern, role, subset of {local static, remote static} supplied, psk modifier index 0..9 / none / fallback, resolver lacking each primitive) is booted once - complete enumeration; a boot is non-trivial if it is not the all-keys-supplied no-modifier default; run-time half: seeded sessions with PSKs withheld at boot", enumerations: vec!["boot-matrix"], scens: vec![scen!("boot-runtime", sc_boot_runtime, 12_000, 300_000, 0xC01)] },
-        Check { id: "C14", level: "exploration", rule: RULE, enumerations: vec![], scens: vec![scen!("framing", sc_framing, 24_000, 600_000, 0xE01), scen!("interop", sc_interop, 6_000, 100_000, 0xE02), scen!("framing-boundary", sc_framing_boundary, 10_640, 42_560, 0xE03)] },
-        Check { id: "C15", level: "exploration", rule: RULE, enumerations: vec![], scens: vec![scen!("rekey", sc_rekey, 24_000, 600_000, 0xF01), scen!("nonce", sc_nonce, 6_000, 100_000, 0xF02)] },
+        Check { id: "C14", level: "exploration", rule: RULE, enumerations: vec![], scens: vec![scen!("framing", sc_framing, 24_000, 600_000, 0xE01), scen!("interop", sc_interop, 6_000, 100_000, 0xE02), scen!("framing-boundary", sc_framing_boundary, 10_640, 42_560, 0xE03), scen!("boundary-sweep", sc_boundary_sweep, 1_536, 6_144, 0xE04)] },
+        Check { id: "C15", level: "exploration", rule: RULE, enumerations: vec![], scens: vec![scen!("rekey", sc_rekey, 24_000, 600_000, 0xF01), scen!("nonce", sc_nonce, 6_000, 100_000, 0xF02), scen!("nonce-enum", sc_nonce_enum, 15_552, 15_552, 0xF03), scen!("rekey-enum", sc_rekey_enum, 15_552, 15_552, 0xF04)] },
         Check { id: "C16", level: "exploration", rule: RULE, enumerations: vec!["stateless-threads"], scens: vec![scen!("stateless", sc_stateless, 24_000, 600_000, 0x1001)] },
         Check { id: "C17", level: "exploration", rule: RULE, enumerations: vec![], scens: vec![scen!("honest", sc_honest, 16_000, 400_000, 0x1101), scen!("fail-retry", sc_fail_retry_ledger, 8_000, 200_000, 0x1102)] },
-        Check { id: "C19", level: "exploration", rule: RULE, enumerations: vec![], scens: vec![scen!("leak", sc_leak, 24_000, 600_000, 0x1301), scen!("tamper-hs", sc_tamper_hs, 6_000, 100_000, 0x1302)] },
-        Check { id: "C20", level: "exploration", rule: RULE, enumerations: vec!["fallback-table"], scens: vec![scen!("backends-twin", sc_backends_twin, 8_000, 200_000, 0x1401)] },
+        Check { id: "C19", level: "exploration", rule: RULE, enumerations: vec![], scens: vec![scen!("leak", sc_leak, 24_000, 600_000, 0x1301), scen!("tamper-hs", sc_tamper_hs, 6_000, 100_000, 0x1302), scen!("leak-enum", sc_leak_enum, 2_700, 2_700, 0x1303)] },
+        Check { id: "C20", level: "exploration", rule: RULE, enumerations: vec!["fallback-table"], scens: vec![scen!("backends-twin", sc_backends_twin, 8_000, 200_000, 0x1401), scen!("rekey-enum-twin", sc_rekey_enum_twin, 5_184, 5_184, 0x1402)] },
     ]
 }
